@@ -282,6 +282,15 @@ func (s *ItemSpec) Make() Made {
 			D time.Duration
 			L NumLabel
 		}{time.Duration(s.Num) * time.Millisecond, MakeNumLabel(string(s.Str))}
+	case "marshalonly":
+		m.Item = MarshalOnly{int(s.Num), 4}
+	case "marshalenum":
+		m.Item = MarshalEnum(s.Num)
+	case "aroundcell":
+		m.Item = AroundCell{tabular.NewCell("<wrong: the embedded cell's text>"), string(s.Str)}
+	case "aroundcellptr":
+		in := tabular.NewCell("<wrong: the embedded cell's text>")
+		m.Item = AroundCellE{&in, string(s.Str)}
 	case "fmterr":
 		m.Item = FmtErr{string(s.Str)}
 	case "fmtgo":
@@ -414,7 +423,7 @@ func (s *ItemSpec) TextWith(f *Fields) string {
 		return s.Inner.Text()
 	case "cellptr":
 		return s.Inner.TextWith(f) // the cell pointed at follows its item (see Make)
-	case "anonG", "anonPS", "anonSE", "tplhtml", "tpljs", "tplurl", "tplattr", "jsonnumber", "lookS", "lookSB", "lookW", "lookH", "cellcycle1", "cellcycle2", "twinnameStr", "fielder", "owneritem", "cellish", "bothmarshal", "textmarshal", "numlabel", "floatlabel", "fmterr", "fmtgo":
+	case "anonG", "anonPS", "anonSE", "tplhtml", "tpljs", "tplurl", "tplattr", "jsonnumber", "lookS", "lookSB", "lookW", "lookH", "cellcycle1", "cellcycle2", "twinnameStr", "fielder", "owneritem", "cellish", "bothmarshal", "textmarshal", "numlabel", "floatlabel", "fmterr", "fmtgo", "aroundcell", "aroundcellptr":
 		return string(s.Str) // promoted GoString / String (String before Error); named string types read as their value
 	case "aggslice", "aggstringer", "aggarrmap":
 		// by-value aggregates which reach mutable state through an interior reference
@@ -628,7 +637,7 @@ func (r *R) AnyItem(fam Fam, maxAtoms, depth int) ItemSpec {
 	case 4:
 		return ItemSpec{K: "bool", Num: int64(r.Intn(2))}
 	case 5:
-		return ItemSpec{K: Pick(r, []string{"mystr", "bytes", "err", "fmtstr", "aggslice", "aggstringer", "aggarrmap", "anonG", "anonPS", "anonSE", "tplhtml", "tpljs", "tplurl", "tplattr", "tplhtml", "jsonnumber", "ifacestruct", "ifacearr", "lookS", "lookSB", "lookW", "lookH", "lookNone", "cellcycle1", "cellcycle2", "twinnameStr", "twinnameNum", "twinnameBool", "fielder", "owneritem", "cellish", "bothmarshal", "textmarshal", "numlabel", "floatlabel", "boollabel", "durmicro", "labelslice", "durslice", "montharr", "errslice", "stringerstruct", "fmterr", "fmtgo"}), Str: Q(r.Str(fam, maxAtoms)), Num: int64(r.Intn(3))}
+		return ItemSpec{K: Pick(r, []string{"mystr", "bytes", "err", "fmtstr", "aggslice", "aggstringer", "aggarrmap", "anonG", "anonPS", "anonSE", "tplhtml", "tpljs", "tplurl", "tplattr", "tplhtml", "jsonnumber", "ifacestruct", "ifacearr", "lookS", "lookSB", "lookW", "lookH", "lookNone", "cellcycle1", "cellcycle2", "twinnameStr", "twinnameNum", "twinnameBool", "fielder", "owneritem", "cellish", "bothmarshal", "textmarshal", "numlabel", "floatlabel", "boollabel", "durmicro", "labelslice", "durslice", "montharr", "errslice", "stringerstruct", "fmterr", "fmtgo", "aroundcell", "aroundcellptr", "marshalonly", "marshalenum"}), Str: Q(r.Str(fam, maxAtoms)), Num: int64(r.Intn(3))}
 	case 6:
 		return ItemSpec{K: Pick(r, []string{"slice", "map", "struct", "structptr", "complex", "complex64", "fmtfloat"}), Str: Q(r.Str(FAscii, 2)), Num: int64(r.Intn(9)), Flt: 1.5}
 	case 7:
@@ -895,3 +904,35 @@ type FmtGo struct{ V string }
 
 func (e FmtGo) GoString() string              { return e.V }
 func (e FmtGo) Format(s fmt.State, verb rune) { fmt.Fprintf(s, "<wrong: Format>") }
+
+// MarshalOnly implements encoding.TextMarshaler and NONE of the text methods a cell looks for: its text form is
+// the default formatting of the value ({3 4}), not what it marshals to.
+type MarshalOnly struct{ X, Y int }
+
+func (m MarshalOnly) MarshalText() ([]byte, error) {
+	return []byte(fmt.Sprintf("<wrong: MarshalText> %d;%d", m.X, m.Y)), nil
+}
+
+// MarshalEnum is an enum-like number with MarshalText only.
+type MarshalEnum int
+
+func (m MarshalEnum) MarshalText() ([]byte, error) { return []byte("<wrong: MarshalText>"), nil }
+
+// AroundCell is an application type built around the library's own Cell (embedded by value), with a text method of
+// its own: it is an item like any other, shown by ITS String.
+type AroundCell struct {
+	tabular.Cell
+	Label string
+}
+
+func (a AroundCell) String() string { return a.Label }
+
+// AroundCellPtr embeds a *Cell and an error method next to it: the promoted String and this Error... String wins
+// only if it is not ambiguous; here the type defines GoString itself and embeds nothing else, so String (promoted
+// from the cell) comes first - the cell's text.
+type AroundCellE struct {
+	*tabular.Cell
+	V string
+}
+
+func (a AroundCellE) String() string { return a.V }
